@@ -24,6 +24,11 @@ TEMPLATE = '[Trash Info]\nPath=%s\nDeletionDate=%s\n'
 DATEFMT = '%Y-%m-%dT%H:%M:%S'
 
 
+# rules of sibling properties that are necessary conditions of this one too
+# (evaluated by the sibling module on the same graphs, reported under this property)
+ALSO = {'C16': {'R16.4': 'the recorded Path is computed for this argument and candidate, not '
+                  'remembered'}}
+
 def check(ctx):
     r = PutRoles(ctx)
     b, g = r.b, r.g
@@ -205,49 +210,93 @@ def b_guards(ctx, cmd, node, u):
 
 
 def first_match_rules(ctx, rule='R03.3'):
-    """First Path= line and first DeletionDate= line win (syntactic check of the
-    functions that contain the unquote / strptime calls)."""
-    p = ctx.program
-    found_path = found_date = 0
-    for f in p.all_functions():
-        for loop in [n for n in ast.walk(f.node) if isinstance(n, ast.For)]:
-            src = ast.unparse(loop)
-            if "startswith('Path=')" in src and 'unquote' in src:
-                # first match: the decoding is followed by a return/break in the same if
-                ifs = [n for n in ast.walk(loop) if isinstance(n, ast.If) and
-                       "startswith('Path=')" in ast.unparse(n.test)]
-                uses_value = f.name != 'parse_trashinfo'
-                for i in ifs:
-                    leaves = any(isinstance(x, (ast.Return, ast.Break)) for x in ast.walk(i))
-                    if uses_value or leaves:
-                        found_path += 1
-                        ctx.ob(rule, 'first "Path=" line wins in %s' % f.qualname, leaves,
-                               construct=f.qualname, text=ast.unparse(i.test),
-                               message='%s keeps scanning after the first Path= line: a '
-                                       'later duplicate key overrides the first one'
-                                       % f.qualname)
-            if 'strptime' in src and 'DeletionDate=' in src:
-                ifs = [n for n in ast.walk(loop) if isinstance(n, ast.If) and
-                       'DeletionDate=' in ast.unparse(n.test)]
-                for i in ifs:
-                    found_date += 1
-                    t = ast.unparse(i.test)
-                    flags = [n.id for n in ast.walk(i.test) if isinstance(n, ast.Name)]
-                    sets = [n for n in ast.walk(i) if isinstance(n, ast.Assign) and
-                            isinstance(n.targets[0], ast.Name) and
-                            n.targets[0].id in flags and
-                            isinstance(n.value, ast.Constant) and n.value.value is True]
-                    guarded = any(isinstance(n, ast.UnaryOp) and isinstance(n.op, ast.Not)
-                                  and isinstance(n.operand, ast.Name)
-                                  for n in ast.walk(i.test))
-                    leaves = any(isinstance(x, (ast.Return, ast.Break)) for x in ast.walk(i))
-                    ctx.ob(rule, 'first "DeletionDate=" line wins in %s' % f.qualname,
-                           (guarded and bool(sets)) or leaves, construct=f.qualname, text=t,
-                           message='%s: a later DeletionDate= line overrides the first one'
-                                   % f.qualname)
-    if not (found_path and found_date):
-        ctx.ob(rule, 'the reader loops for Path= / DeletionDate= have first-match form', False,
+    """First Path= line and first DeletionDate= line win: in every reader graph, the
+    decoding call (unquote / strptime) whose result is *used* (printed, matched, compared,
+    sorted, restored to) sits in a loop over the lines of the file; once it has run for
+    one line it cannot run for a later line of the same file -- the loop is left (return
+    / break), or a flag that the match sets on the way guards the call."""
+    found = {'Path': 0, 'DeletionDate': 0}
+    for cmd in ('list', 'restore', 'rm', 'empty'):
+        b = ctx.graph(cmd)
+        g = b.g
+        used = {'Path': set(), 'DeletionDate': set()}
+        if cmd != 'empty':
+            for what, n, t in location_uses(ctx, cmd):
+                used['Path'] |= set(x.node for x in unquote_calls_all(t))
+        if cmd != 'rm':
+            for what, n, t in date_uses(ctx, cmd):
+                used['DeletionDate'] |= set(x.node for x in strptime_calls_all(t))
+        seen = set()
+        for u in b.nodes('ext'):
+            fn, res = u.data.get('fn'), u.data.get('result')
+            if res is None:
+                continue
+            kind = 'Path' if fn in UNQUOTERS else ('DeletionDate' if fn in STRPTIME else None)
+            if kind is None or u.id not in used[kind]:
+                continue
+            loops = [d for d in g.dominators(u.id) if d != u.id and g.n(d).kind == 'loop'
+                     and g.n(d).data.get('iter') is not None and
+                     reads_info(g.n(d).data['iter'])]
+            if not loops:
+                continue          # not a line scanner (e.g. the clock override)
+            head = loops[0]       # innermost
+            key = (u.func, kind, (u.src or ''))
+            if key in seen:
+                continue
+            seen.add(key)
+            found[kind] += 1
+            again = matches_again(b, u, head)
+            ctx.ob(rule, 'first "%s=" line wins in %s' % (kind, u.func), not again, node=u,
+                   message='%s keeps decoding after the first %s= line: a later duplicate '
+                           'key overrides the first one (the writer and the other readers '
+                           'take the first)' % (u.func, kind))
+    if not (found['Path'] and found['DeletionDate']):
+        ctx.ob(rule, 'the readers scan the lines for Path= / DeletionDate=', False,
                construct='trashcli.parse_trashinfo', text='reader loops',
-               message='no loop that scans for "Path=" / parses "DeletionDate=" with the one '
-                       'expected format was found: the readers were restructured (several '
-                       'formats, several passes) and first-line semantics cannot be established')
+               message='no loop over the lines of a .trashinfo decodes a used Path= / '
+                       'DeletionDate= value (found %s): the readers were restructured and '
+                       'first-line semantics cannot be established' % found)
+
+
+def unquote_calls_all(t):
+    return [x for x in walk(t) if isinstance(x, Call) and x.fn in UNQUOTERS]
+
+
+def strptime_calls_all(t):
+    return [x for x in walk(t) if isinstance(x, Call) and x.fn in STRPTIME]
+
+
+def matches_again(b, u, head):
+    """The decoding call u can run for two different lines of one file."""
+    g = b.g
+    outer = [d for d in g.dominators(head) if d != head and g.n(d).kind == 'loop']
+    succ = [t for t, l in g.succ[u.id]]
+    if u.id not in g.reachable_from(succ, blocked=outer):
+        return False
+    # flag idiom: "if not seen and <match>: seen = True; <decode>"
+    in_loop = lambda n: g.dominates(head, n.id)
+    assigns = {}
+    for n in b.nodes('assign'):
+        if in_loop(n) and n.data.get('aug') is None:
+            assigns.setdefault(n.data['target'], []).append(n)
+    latched = set()
+    for f, sites in assigns.items():
+        if not all(is_const(strip(n.data['value']), True) for n in sites):
+            continue              # the flag is also reset inside the loop
+        ids = [n.id for n in sites]
+        # the match sets the flag: before the call, or on every way to the next line
+        if any(g.dominates(i, u.id) for i in ids) or \
+                head not in g.reachable_from(succ, blocked=set(outer) | set(ids)):
+            latched.add(f)
+    # a second run of u would have to pass the test "flag is false" again
+    for n in b.nodes('assume'):
+        if in_loop(n) and flag_false_test(n, latched) and g.dominates(n.id, u.id):
+            return False
+    return True
+
+
+def flag_false_test(n, flags):
+    c, pol = unwrap_not(n.data['cond'], n.data['pol'])
+    names = set(x.name for x in flat(c) if isinstance(x, LoopVar))
+    others = [x for x in flat(c) if not isinstance(x, LoopVar) and not is_const(x, False)]
+    return bool(names) and names <= flags and not others and not pol
